@@ -1241,7 +1241,7 @@ fn main() {
     "dotted leaf paths are generated only outside any Nested scope; nested arrays never contain null entries; Nested paths are single names relative to the enclosing scope".into(),
     "a bool.filter list with several members is used only when no two members are Nested clauses on the same path".into(),
   ];
-  let n = ctx.n(1200, 20000);
+  let n = ctx.n(1200, 160_000);
   let quick = ctx.quick();
   ctx.run_cases("flt", n, |rng: &mut Rng, l: &mut Local, scratch| {
     let sch = gen_schema(rng);
